@@ -252,7 +252,9 @@ class RealFloat(numbers.Rational):
             case Fraction():
                 other = RealFloat.from_rational(other)
             case _:
-                raise TypeError(f'unsupported operand type(s) for +: \'RealFloat\' and \'{type(other)}\'')
+                # let the other operand's reflected method answer (`Float`
+                # handles a `RealFloat`); Python raises `TypeError` if none does
+                return NotImplemented
 
         if self._c == 0:
             if other._c == 0:
@@ -360,7 +362,9 @@ class RealFloat(numbers.Rational):
             case Fraction():
                 other = RealFloat.from_rational(other)
             case _:
-                raise TypeError(f'unsupported operand type(s) for +: \'RealFloat\' and \'{type(other)}\'')
+                # let the other operand's reflected method answer (`Float`
+                # handles a `RealFloat`); Python raises `TypeError` if none does
+                return NotImplemented
 
         s = self._s != other._s
         if self._c == 0 or other._c == 0:
